@@ -102,14 +102,14 @@ class LinChecker {
     Model& M = S.M;
     const TOp& o = ops[static_cast<size_t>(so.op)];
     auto reports = [&]() { std::vector<PRep> v; for (auto& r : o.obs.reports) v.push_back(parse_report(r)); return v; };
-    auto exp_key = [&](int id, int kind) { const MExp& e = M.exps[static_cast<size_t>(id)]; return std::string(repkind_name(kind)) + "|" + e.sd().text + "|" + std::to_string(e.sd().line); };
+    auto exp_key = [&](int id, int kind) { const MExp& e = M.exps[static_cast<size_t>(id)]; return std::string(repkind_name(kind)) + "|" + e.sd().text + "|" + std::to_string(e.line); };
     switch (o.kind) {
       case OP_EXPECT: {
         MExp& e = M.exps[static_cast<size_t>(o.exp)];
         const ShapeDesc& d = shape_table[o.shape];
         if (so.kind == SK_REG) {
           if (!e.alive) {  // first sub-step: the object comes into being with the bounds given so far
-            e = MExp(); e.id = o.exp; e.shape = o.shape; e.mock = o.mock; e.fn = d.fn; e.actor = o.actor;
+            e = MExp(); e.id = o.exp; e.shape = o.shape; e.mock = o.mock; e.fn = d.fn; e.actor = o.actor; e.line = d.line;
             for (int k = 0; k < 3; ++k) e.v[k] = o.v[k];
             if (d.times_after_seq) { e.L = 1; e.H = 1; } else { e.L = o.L; e.H = o.H; }
             e.snap0 = e.snap = o.snap; e.nseq = o.nseq; for (int k = 0; k < 3; ++k) e.seq[k] = o.seqs[k];
@@ -122,7 +122,7 @@ class LinChecker {
         if (so.kind == SK_LIMITS) { e.L = o.L; e.H = o.H; return 1; }
         // hook: callable from now on
         if (!e.alive) {
-          e = MExp(); e.id = o.exp; e.shape = o.shape; e.mock = o.mock; e.fn = d.fn; e.actor = o.actor;
+          e = MExp(); e.id = o.exp; e.shape = o.shape; e.mock = o.mock; e.fn = d.fn; e.actor = o.actor; e.line = d.line;
           for (int k = 0; k < 3; ++k) e.v[k] = o.v[k];
           e.snap0 = e.snap = o.snap; e.nseq = 0; e.alive = true; e.order = M.clock++;
         }
